@@ -118,15 +118,62 @@ def concrete_calls(calls, unit=UNIT):
     return out
 
 
-def make_scn(c, sid, policy):
+def make_scn(c, sid, policy, unit=UNIT, dict_size=None):
+    """Concretises a model-level call script. `unit` is the configured chunk / member size; with `dict_size` larger than
+    it the constructors raise the unit size to the dictionary size, so a full iteration (F) of the model is `dict_size` bytes."""
     k = c["consts"]
-    s = {"id": sid, "family": c["fam"], "workers": int(k["MaxWorkers"]), "unit_len": UNIT,
-         "calls": concrete_calls(c["calls"]),
+    eff = unit if dict_size is None else max(unit, dict_size)
+    s = {"id": sid, "family": c["fam"], "workers": int(k["MaxWorkers"]), "unit_len": unit,
+         "calls": concrete_calls(c["calls"], eff),
          "panic": eval(k["PanicUnits"].replace("{", "[").replace("}", "]")), "policy": policy,
          # non-periodic input: an encoder that refers to the wrong history must not decode correctly by coincidence
          "data_class": "text", "seed": 7}
+    if dict_size is not None:
+        s["dict_size"] = dict_size
     if c.get("extra"):
         s.update(c["extra"])
     if s.pop("merge", False):
         s["calls"] = merge_calls(s["calls"])
     return s
+
+
+# (configured unit size, dictionary size) pairs: unit above, equal to and below the dictionary size. Below it the constructors
+# raise the unit size to the dictionary size (C18: "both raised to the dictionary size when smaller").
+UNIT_CONFIGS = [(5000, 4096), (4096, 4096), (3000, 8192), (1, 4096), (6000, 16384)]
+
+
+def partitions(raw, eff, total, rnd):
+    """Write partitions of `total` bytes for a writer whose configured unit size is `raw` and whose effective unit size is
+    `eff` (>= raw): one write, pieces below the configured size, pieces between the configured and the effective size,
+    pieces above the effective size, none of them dividing the unit; a call ending one byte before a boundary; ragged."""
+    def equal(n):
+        n = max(257, n)             # the deterministic runtime pays per call: no byte-sized pieces
+        return [n] * (total // n) + ([total % n] if total % n else [])
+
+    def ragged(sizes):
+        out, left = [], total
+        while left > 0:
+            n = min(left, max(1, rnd.choice(sizes)))
+            out.append(n)
+            left -= n
+        return out
+    between = (raw + eff) // 2 + 1 if eff > raw + 2 else eff - eff // 3 - 1
+    parts = [("one", [total]),
+             ("below", equal(min(raw, eff) * 2 // 5 + 1 if raw >= 700 else eff // 7 + 1)),
+             ("between", equal(between)),
+             ("above", equal(eff + eff // 3 + 1)),
+             ("exact", equal(eff)),
+             ("edge", [eff - 1, total - eff + 1] if total > eff else [total]),
+             ("ragged", ragged([300, 997, max(300, raw - 1), raw + 1, between, eff - 300, eff + 1, 2 * eff - 5]))]
+    return [(n, [x for x in p if x > 0]) for n, p in parts]
+
+
+def partition_scns(fam, raw, dict_size, total, workers, policy, sid, rnd, data_class="text", seed=7):
+    """One scenario per partition shape: write calls, then finish."""
+    eff = max(raw, dict_size, 4096)
+    out = []
+    for name, part in partitions(raw, eff, total, rnd):
+        out.append({"id": f"{sid}-{name}", "family": fam, "workers": workers, "unit_len": raw, "dict_size": dict_size,
+                    "calls": [{"op": "write", "n": n} for n in part] + [{"op": "finish"}], "panic": [],
+                    "policy": policy(), "data_class": data_class, "seed": seed, "shape": name})
+    return out
